@@ -137,6 +137,14 @@ fn authentic_run(run: usize, rng: &mut Rng, w: &mut NdjsonWriter, acc: &mut Acc)
             break;
         }
     }
+    // one authentic run in six is a peering path (two segments joined by a peering link)
+    let peering = rng.chance(1, 6);
+    if peering {
+        pieces.clear();
+        pieces.push(c11::Piece { n: rng.range(1, 12) as usize, cd: false, peer: true });
+        pieces.push(c11::Piece { n: rng.range(1, 12) as usize, cd: true, peer: true });
+    }
+    let npieces = pieces.len();
     let salt = 1000 + run as u64;
     let mut j = c11::build_authentic(&pieces, salt, rng, false, TS_BASE);
     for h in j.hdr.hop.iter_mut() {
@@ -180,13 +188,13 @@ fn authentic_run(run: usize, rng: &mut Rng, w: &mut NdjsonWriter, acc: &mut Acc)
     let inf_id = move |i: &InfC| -> i64 { ref2.inf.iter().position(|x| x.ts == i.ts).map(|p| p as i64 + 1).unwrap_or(-1) };
     w.write(&json!({
         "ev": "reset", "run": run, "cls": "authentic", "tamper": what, "sl": h0.sl, "ci": h0.ci, "ch": h0.ch,
-        "inf": h0.inf.iter().enumerate().map(|(k, i)| json!({"id": k + 1, "cd": i.flags & 1 != 0, "ts": i.ts.wrapping_sub(TS_BASE) % 1_000_000_000, "sid": i.segid})).collect::<Vec<_>>(),
+        "inf": h0.inf.iter().enumerate().map(|(k, i)| json!({"id": k + 1, "cd": i.flags & 1 != 0, "peer": i.flags & FLAG_PEER != 0, "ts": i.ts.wrapping_sub(TS_BASE) % 1_000_000_000, "sid": i.segid})).collect::<Vec<_>>(),
         "hop": h0.hop.iter().enumerate().map(|(g, h)| json!({"id": g + 1, "exp": h.exp, "in": h.cin, "eg": h.ceg,
                 "mac": u16::from_be_bytes([h.mac[0], h.mac[1]]), "ai": h.flags & HF_INGRESS_ALERT != 0, "ae": h.flags & HF_EGRESS_ALERT != 0})).collect::<Vec<_>>(),
     }));
     acc.nev += 1;
     let mut buf = bytes;
-    let desc = format!("pieces {:?} flips {:?}", pieces.iter().map(|p| format!("{}{}", if p.cd { 'c' } else { 'r' }, p.n)).collect::<Vec<_>>(), what);
+    let desc = format!("{}pieces {:?} flips {:?}", if peering { "peering " } else { "" }, pieces.iter().map(|p| format!("{}{}", if p.cd { 'c' } else { 'r' }, p.n)).collect::<Vec<_>>(), what);
     let mut failed_at = 0usize;
     let mut delivered = [false, false];
     for dir in 0..2 {
@@ -228,7 +236,9 @@ fn authentic_run(run: usize, rng: &mut Rng, w: &mut NdjsonWriter, acc: &mut Acc)
             }
         }
         if dir == 0 {
-            if nflips == 0 && !delivered[0] {
+            if nflips == 0 && !delivered[0] && peering {
+                acc.pvs.push(pv("AuthenticRejected:peering:advance-ignores-PEERING-flag", format!("authentic PEERING path rejected at AS {failed_at} going forward ({desc}): advance_ingress/advance_egress ignore the PEERING flag")));
+            } else if nflips == 0 && !delivered[0] {
                 acc.pvs.push(pv("AuthenticRejected:forward:large", format!("authentic path rejected at AS {failed_at} going forward ({desc})")));
             }
             if nflips > 0 {
